@@ -244,6 +244,102 @@ fn run(ctx: &mut Ctx) {
             }
         }
     }
+    // 3b. value-dependent coercion: the whole boundary pool (247 values) in both positions of every binary
+    //     operator, and in the single position of every built-in — whatever the VALUES, an unsupported
+    //     type combination is a type error and cross-type equality is false
+    {
+        let pool = crate::pools::pool();
+        for (name, ctor) in UNARY.iter() {
+            for v in &pool.all {
+                let t = ty(v);
+                if t == "None" || unary_supported(name, t) || !ctx.mine() {
+                    continue;
+                }
+                expect_type_error(ctx, &ctor(Expr::value(v.clone())), &format!("{name}({t})"), "whole-pool-unary");
+            }
+        }
+        for (name, ctor) in BINARY.iter() {
+            for x in &pool.all {
+                for y in &pool.all {
+                    let (a, b) = (ty(x), ty(y));
+                    if a == "None" || b == "None" {
+                        continue;
+                    }
+                    let e = || ctor(Expr::value(x.clone()), Expr::value(y.clone()));
+                    match *name {
+                        "eq" | "neq" => {
+                            if a != b && ctx.mine() {
+                                expect_value(ctx, &e(), &Value::Bool(*name == "neq"), &format!("{name}({a},{b})"), "whole-pool-cross-type-equality");
+                            }
+                        }
+                        "and" | "or" => {
+                            let decides = matches!((x, *name), (Value::Bool(false), "and") | (Value::Bool(true), "or"));
+                            if (a != "Bool" || (!decides && b != "Bool")) && ctx.mine() {
+                                expect_type_error(ctx, &e(), &format!("{name}({a},{b})"), "whole-pool-logical");
+                            }
+                        }
+                        _ => {
+                            if !binary_supported(name, a, b) && ctx.mine() {
+                                expect_type_error(ctx, &e(), &format!("{name}({a},{b})"), "whole-pool-binary");
+                            }
+                        }
+                    }
+                }
+            }
+        }
+    }
+    // 3c. the same unsupported cells with operands that are not literals: fields of the input, `facts`
+    //     itself, symbols, results of user functions, list elements, if-branches
+    {
+        use crate::fixture::build;
+        use crate::instr::{FaultPlan, FnDesc, Kind};
+        let descs = vec![FnDesc { name: "v", cacheable: false, kind: Kind::V, suspend: 0 }, FnDesc { name: "cv", cacheable: true, kind: Kind::V, suspend: 0 }];
+        for (name, ctor) in BINARY.iter() {
+            if ["eq", "neq", "and", "or"].contains(name) {
+                continue;
+            }
+            for a in NON_NONE {
+                for b in NON_NONE {
+                    if binary_supported(name, a, b) || !ctx.mine() {
+                        continue;
+                    }
+                    let (x, y) = (tup[a][0].clone(), tup[b][0].clone());
+                    let mut facts = BTreeMap::new();
+                    facts.insert("a".to_string(), x.clone());
+                    facts.insert("b".to_string(), y.clone());
+                    let facts = Value::Map(facts);
+                    let mut symbols = BTreeMap::new();
+                    symbols.insert("sa".to_string(), x.clone());
+                    symbols.insert("sb".to_string(), y.clone());
+                    let lit = |v: &Value| Expr::value(v.clone());
+                    let rules = vec![
+                        ("via input fields".to_string(), ctor(Expr::reff("a"), Expr::reff("b"))),
+                        ("via facts".to_string(), ctor(Expr::index(Expr::reff("facts"), "a".into()), Expr::index(Expr::reff("facts"), "b".into()))),
+                        ("via symbols".to_string(), ctor(Expr::symbol("sa"), Expr::symbol("sb"))),
+                        ("via function results".to_string(), ctor(Expr::func("v", lit(&x)), Expr::func("cv", lit(&y)))),
+                        ("via list elements".to_string(), ctor(Expr::index(Expr::Vec(vec![lit(&x)]), 0usize.into()), Expr::index(Expr::Vec(vec![lit(&y), lit(&x)]), 0usize.into()))),
+                        ("via if branches".to_string(), ctor(Expr::iif(Expr::value(true), lit(&x), lit(&y)), Expr::iif(Expr::value(false), lit(&x), lit(&y)))),
+                        ("mixed".to_string(), ctor(Expr::reff("a"), Expr::func("v", Expr::symbol("sb")))),
+                    ];
+                    let fx = build(&descs, &symbols, &rules, FaultPlan::default());
+                    let cell = format!("{name}({a},{b})");
+                    match fx.eval(&facts, 1) {
+                        Ok(res) => {
+                            for (rule, obs) in res.outcomes {
+                                ctx.count();
+                                ctx.hit("context:operands-not-literals");
+                                ctx.nontrivial(fnv(format!("{cell}|{rule}").as_bytes()));
+                                if !is_type_error(&obs) {
+                                    ctx.violation(format!("C03 {}-instead-of-type-error {cell} ({rule})", describe(&obs)), format!("operands arriving {rule}: {}", show_obs(&obs)), json!({"cell": cell, "how": rule, "left": format!("{x:?}"), "right": format!("{y:?}"), "observed": show_obs(&obs)}));
+                                }
+                            }
+                        }
+                        Err(p) => ctx.violation("C03 evaluation-failed", p, json!({"cell": cell})),
+                    }
+                }
+            }
+        }
+    }
     // 4. casts are the only way across: the same mixed operation succeeds once an explicit cast is applied
     if ctx.shard == 0 {
         let cases: Vec<(Expr, Value)> = vec![
@@ -290,7 +386,7 @@ fn finish(m: &Merged, _tier: Tier) -> Finish {
     }
     want_unsup += 8 + 8; // if(T) for the 8 non-Bool types, not(T) through a branch
     let mut f = Finish {
-        rule: "exhaustive: every unary built-in x 9 non-None types, every binary operator x 81 ordered type pairs, with 6 (unary) / 12 (binary) value tuples chosen to coincide under coercion (1 / 1.0 / d1 / \"1\" / true / 1 s / epoch+1 s / [1] / {a:1}); each unsupported cell also nested under another operator; conditions of if/and/or with every non-Bool type and a tripwire (1/0) in the positions that must stay unevaluated. Oracle: the supported-cell table as data; anything else must be Err(InvalidType). Every case is non-trivial; distinct by tree".into(),
+        rule: "exhaustive: every operator x every pair of the 247 pool values of non-None type whose type combination is unsupported (value-dependent coercion), operands also arriving through input fields / facts / symbols / user-function results / list elements / if-branches; and: every unary built-in x 9 non-None types, every binary operator x 81 ordered type pairs, with 6 (unary) / 12 (binary) value tuples chosen to coincide under coercion (1 / 1.0 / d1 / \"1\" / true / 1 s / epoch+1 s / [1] / {a:1}); each unsupported cell also nested under another operator; conditions of if/and/or with every non-Bool type and a tripwire (1/0) in the positions that must stay unevaluated. Oracle: the supported-cell table as data; anything else must be Err(InvalidType). Every case is non-trivial; distinct by tree".into(),
         exhaustive: true,
         exhaustive_part: "the whole workload is an enumeration; the seed is not used".into(),
         ..Default::default()
@@ -298,6 +394,7 @@ fn finish(m: &Merged, _tier: Tier) -> Finish {
     f.floors.push(floor(format!("unsupported cells exercised ({unsupported}, table says {want_unsup})"), unsupported >= want_unsup - 8));
     f.floors.push(floor(format!("supported cells recognised ({supported}, table says {want_sup})"), supported >= want_sup));
     f.floors.push(floor(format!("cross-type equality cases: {}", m.c("context:cross-type-equality")), m.c("context:cross-type-equality") >= 2 * 72 * 12));
+    f.floors.push(floor(format!("whole-pool cases: {} binary, {} cross-type equality; operands-not-literals: {}", m.c("context:whole-pool-binary"), m.c("context:whole-pool-cross-type-equality"), m.c("context:operands-not-literals")), m.c("context:whole-pool-binary") >= 300_000 && m.c("context:whole-pool-cross-type-equality") >= 50_000 && m.c("context:operands-not-literals") >= 3_000));
     f.extras.insert("unsupported_cells".into(), json!(unsupported));
     f.extras.insert("supported_cells".into(), json!(supported));
     f.extras.insert("contexts".into(), json!(m.prefix_map("context:")));
